@@ -11,7 +11,7 @@ use std::collections::HashMap;
 
 pub const LEVEL: &str = "exploration";
 pub const EXHAUSTIVE: bool = false;
-pub const RULE: &str = "typed texts judged after every key: exhaustive over the 94 typeable characters for length 1..2 (thorough also length 3 over a 30-character sub-alphabet), every bundled auto-correct key, every emoji name and emoticon, then generated words (auto-correct keys / random Avro-biased letters, +/- one of the 737 suffix keys, +/- wrapping punctuation); options English / smart quote / ANSI free; in 1 of 5 generated cases a user auto-correct file that overrides a bundled key or adds one for the word or a base. Oracle: every candidate is classified independently (auto-correct of the word, user before bundled; dictionary word matching the okkhor pattern with distance = own Levenshtein to the transliteration; suffix-built from a dictionary base with the base's distance, all splits collected; suffix-built from an auto-correct base; emoji of the tables; transliteration; raw text). Checks: auto-correct exists => it is candidate 0; a greedy pass finds a non-decreasing distance assignment for the dictionary-class candidates in list order; the transliteration, unless a dictionary match, comes after every dictionary-class candidate; English on and text not an emoticon => raw text last; no emoji before a dictionary word that equals the transliteration; no text twice. Non-trivial: the list mixes >= 3 classes or contains a suffix-built item; distinct by (options, user file, text).";
+pub const RULE: &str = "typed texts judged after every key: exhaustive over the 94 typeable characters for length 1..2 (thorough also length 3 over a 30-character sub-alphabet), every bundled auto-correct key, every emoji name and emoticon, then generated words (auto-correct keys / random Avro-biased letters, +/- one of the 737 suffix keys, +/- wrapping punctuation); options English / smart quote / ANSI free; in 1 of 5 generated cases a user auto-correct file that overrides a bundled key or adds one for the word or a base. Oracle: every candidate is classified independently (auto-correct of the word, user before bundled; dictionary word matching the okkhor pattern with distance = own Levenshtein to the transliteration; suffix-built from a dictionary base with the base's distance, all splits collected; suffix-built from an auto-correct base; emoji of the tables; transliteration; raw text). Checks: auto-correct exists => it is candidate 0; a greedy pass finds a non-decreasing distance assignment for the dictionary-class candidates in list order; the transliteration, unless a dictionary match, comes after every dictionary-class candidate; English on and text not an emoticon => raw text last; no emoji before a dictionary word that equals the transliteration; no text twice. Non-trivial: the list mixes >= 3 classes or contains a suffix-built item; distinct by (options, user file, text). Plus a data-guided part: validated spellings (independent oracle) of 573 dictionary words covering every final character class, bare and with a suffix key, and of EVERY word the dictionary lists more than once (all 8 option sets).";
 pub const ASSUMPTIONS: &[&str] = &[
     "dictionary / auto-correct / suffix JSON read independently; okkhor regex; own Levenshtein over code points; emojicon tables",
     "the position of suffix forms built on an auto-correct base is not constrained (the statement does not place them)",
